@@ -94,7 +94,7 @@ def check_pairs(w, rep, tier):
                            fact={"branches": len(bs), "fixed_conditions": nfixed})
 
 
-def check_from_matrix(w, rep):
+def check_from_matrix(w, rep, R="C07.from-matrix", RV="C07.valid", RS="C07.shepperd"):
     """from_Matrix entry points: right inverse of to_Matrix on structured rotation matrices, all Shepperd branches."""
     Q, Mr, D, E = (w.G(n) for n in SO3_REPS)
     sources = []
@@ -106,13 +106,13 @@ def check_from_matrix(w, rep):
     sources.append(("M(euler)", w.call(Xe, "to_Matrix"), []))
     with with_maxdeg(30):
         for label, M, quats in sources:
-            ok, Y = guarded(w, rep, "C07.from-matrix", "SO3Quat.from_Matrix(%s)" % label, lambda: w.call(Q, "from_Matrix", M))
+            ok, Y = guarded(w, rep, R, "SO3Quat.from_Matrix(%s)" % label, lambda: w.call(Q, "from_Matrix", M))
             if not ok:
                 continue
             qp = w.param(Y)
             bs = branches(qp, limit=4)
             if bs is None:
-                rep.incomplete("C07.from-matrix", "SO3Quat.from_Matrix(%s)" % label, "too many branches")
+                rep.incomplete(R, "SO3Quat.from_Matrix(%s)" % label, "too many branches")
                 continue
             W = w.method_where(Q, "from_Matrix")[:2]
             for k, (desc, qb) in enumerate(bs):
@@ -120,21 +120,21 @@ def check_from_matrix(w, rep):
                 v, d = decide_mat(Rb, M, quats)
                 inst = "SO3Quat.from_Matrix(%s): to_Matrix(result) = matrix, Shepperd selection %d/%d" % (label, k + 1, len(bs))
                 if v == EQUAL:
-                    rep.ok("C07.from-matrix", inst)
+                    rep.ok(R, inst)
                 elif v == DIFFERENT:
-                    rep.fail("C07.from-matrix", inst, "Shepperd branch is not a right inverse of to_Matrix: %s" % d, where=W)
+                    rep.fail(R, inst, "Shepperd branch is not a right inverse of to_Matrix: %s" % d, where=W)
                 else:
-                    rep.incomplete("C07.from-matrix", inst, "cannot decide: %s" % d, where=W)
+                    rep.incomplete(R, inst, "cannot decide: %s" % d, where=W)
                 vn = decide(cm.sumsqr(qb).s(), cm.ONE, quats)
                 instn = "SO3Quat.from_Matrix(%s): unit norm, Shepperd selection %d/%d" % (label, k + 1, len(bs))
                 if vn == EQUAL:
-                    rep.ok("C07.valid", instn)
+                    rep.ok(RV, instn)
                 elif vn == DIFFERENT:
-                    rep.fail("C07.valid", instn, "quaternion returned by from_Matrix does not have unit norm", where=W)
+                    rep.fail(RV, instn, "quaternion returned by from_Matrix does not have unit norm", where=W)
                 else:
-                    rep.na("C07.valid", instn, "not decided")
+                    rep.na(RV, instn, "not decided")
     # Shepperd selector: the pivot slot of each selection is the component declared largest by its guard
-    ok, Y = guarded(w, rep, "C07.shepperd", "from_Matrix(symbolic)", lambda: w.call(Q, "from_Matrix", w.sym("R", 3, 3)))
+    ok, Y = guarded(w, rep, RS, "from_Matrix(symbolic)", lambda: w.call(Q, "from_Matrix", w.sym("R", 3, 3)))
     if ok:
         qp = w.param(Y)
         Rm = None
@@ -158,7 +158,7 @@ def check_from_matrix(w, rep):
                 piv = [s for s in range(4) if _is_half_sqrt(per_slot[s][k][1])]
                 pivots.append(piv)
             good = all(len(p) == 1 for p in pivots) and [p[0] for p in pivots] == [0, 1, 2, 3]
-        rep.check("C07.shepperd", "selection k returns its pivot in slot k (trace, R00, R11, R22 in that order)", good,
+        rep.check(RS, "selection k returns its pivot in slot k (trace, R00, R11, R22 in that order)", good,
                   "the four Shepperd candidates are not selected in pivot order: pivots per selection %s" % pivots, where=W)
         if good:
             # radicand sign pattern of pivot k: +R_kk for the largest diagonal, all plus for the trace branch
@@ -169,9 +169,9 @@ def check_from_matrix(w, rep):
                 want = [(1, 1, 1), (1, -1, -1), (-1, 1, -1), (-1, -1, 1)][k]
                 if signs != want:
                     okpat = False
-                    rep.fail("C07.shepperd", "pivot %d radicand sign pattern" % k, "radicand is 1 %s, expected signs %s" % (signs, want), where=W)
+                    rep.fail(RS, "pivot %d radicand sign pattern" % k, "radicand is 1 %s, expected signs %s" % (signs, want), where=W)
             if okpat:
-                rep.ok("C07.shepperd", "pivot radicands are 1 + tr, 1 + R00 - R11 - R22, 1 - R00 + R11 - R22, 1 - R00 - R11 + R22")
+                rep.ok(RS, "pivot radicands are 1 + tr, 1 + R00 - R11 - R22, 1 - R00 + R11 - R22, 1 - R00 - R11 + R22")
 
 
 def _is_half_sqrt(p):
@@ -250,6 +250,32 @@ def check_siblings_and_validity(w, rep):
                   "gimbal handling is not symmetric: %d pole conditions, band constants %s" % (len(poles), consts), where=W)
 
 
+def check_poles(w, rep):
+    """Euler from_Matrix at the gimbal poles: with pitch exactly +-pi/2 the pole branch must reproduce the matrix."""
+    E = w.G("SO3EulerB321")
+    W = w.method_where(E, "from_Matrix")[:2]
+    psi, phi = w.sym("psi"), w.sym("phi")
+    for sgn, label in ((1, "+pi/2"), (-1, "-pi/2")):
+        th = cm.pynum(cm.PI_POLY.scale(Fraction(sgn, 2)))
+        e = w.elem(E, cm.vertcat(psi, th, phi))
+        ok, vals = guarded(w, rep, "C07.euler", "pole %s" % label, lambda: (w.call(e, "to_Matrix"), w.call(E, "from_Matrix", w.call(e, "to_Matrix"))))
+        if not ok:
+            continue
+        M, back = vals
+        p = w.param(back)
+        conds = pole_conditions(p)
+        if not conds:
+            # the pole conditions folded to constants: the selected branch is already chosen
+            sel = p
+        else:
+            rep.incomplete("C07.euler", "pitch = %s selects its pole branch" % label, "pole conditions did not fold at the exact pole", where=W)
+            continue
+        M2 = w.call(w.elem(E, sel), "to_Matrix")
+        with with_maxdeg(20):
+            verdict(rep, "C07.euler", "pitch = %s exactly: to_Matrix(from_Matrix(M)) = M on the pole branch" % label, M2, M, (), W,
+                    "the gimbal branch for pitch %s does not reproduce the rotation" % label)
+
+
 def check_flow(w, rep):
     """Routing of the conversions that are defined by composition."""
     Q, Mr, D, E = (w.G(n) for n in SO3_REPS)
@@ -290,6 +316,7 @@ def run(w, rep, tier):
     check_pairs(w, rep, tier)
     check_from_matrix(w, rep)
     check_siblings_and_validity(w, rep)
+    check_poles(w, rep)
     check_flow(w, rep)
     rep.floor("C07.API", 12)
     rep.floor("C07.preserve", 6)
